@@ -359,10 +359,14 @@ def check_d1(case, rec):
             col, adj = wl.constitution(a)
             if wl.annulene_stereo(a):
                 sig = 'annulene-stereo'
-            elif wl.gap_a(a, wl.orbits(col, adj)):
-                sig = 'pseudo-asymmetric'
+            else:
+                orb = wl.orbits(col, adj)
+                if wl.gap_a_ring(a, orb):
+                    sig = 'pseudo-asymmetric-ring'
+                elif wl.gap_a(a, orb):
+                    sig = 'pseudo-asymmetric-acyclic'
         except TimeoutError:
-            sig = 'pseudo-asymmetric'
+            sig = 'pseudo-asymmetric-ring'
         rec.fail('d1-stereo', f'{str(a)!r} spelled {text!r} read as {str(b)!r}: {d[:3]}', sig=sig)
         return
     # absolute convention: RDKit reads the text and chython's canonical output as the same molecule
